@@ -26,6 +26,7 @@ type VerifRec struct {
 	Exe     Execution
 	Mem     []int8
 	Tick    int64
+	Cycle   int
 }
 
 // VerifBudgetExceeded is the panic value raised by VerifTick when the logical
@@ -40,6 +41,7 @@ const VerifSites = 16
 type verifState struct {
 	Budget  int64
 	Ticks   int64
+	Cycle   int
 	Sites   [VerifSites]int64
 	OnTick  func(site, cycle int)
 	LogOn   bool
@@ -56,6 +58,9 @@ func (ctx *Context) Verif() *VerifState { return &ctx.verif }
 func (ctx *Context) VerifTick(site, cycle int) {
 	v := &ctx.verif
 	v.Ticks++
+	if site == 0 || site == 2 || site == 4 {
+		v.Cycle = cycle
+	}
 	if site >= 0 && site < VerifSites {
 		v.Sites[site]++
 	}
@@ -76,6 +81,7 @@ func (v *verifState) add(r VerifRec) {
 		return
 	}
 	r.Tick = v.Ticks
+	r.Cycle = v.Cycle
 	v.Log = append(v.Log, r)
 }
 
